@@ -11,6 +11,7 @@ import Regatta.Driver.CrashMode
 import Regatta.Driver.ApiMode
 import Regatta.Driver.AuthMode
 import Regatta.Driver.ReplMode
+import Regatta.Driver.GmsgMode
 /-
   Model driver: one operation per input line, one answer per output line.
   usage: driver <mode> < ops.txt > model.txt
@@ -38,6 +39,7 @@ def main (args : List String) : IO UInt32 := do
   | ["queue"] => loop stdin stdout Driver.QueueMode.step ({} : Driver.QueueMode.St)
   | ["heap"] => loop stdin stdout Driver.QueueMode.hstep ([] : Queue.Heap)
   | ["wire"] => loop stdin stdout Driver.WireMode.step ()
+  | ["gmsg"] => loop stdin stdout Driver.GmsgMode.step ()
   | ["repl"] => loop stdin stdout Driver.ReplMode.step ({} : Driver.ReplMode.St)
   | ["auth"] => loop stdin stdout Driver.AuthMode.step ({} : Driver.AuthMode.St)
   | ["api"] => loop stdin stdout Driver.ApiMode.step ({} : Driver.ApiMode.St)
